@@ -321,7 +321,15 @@ func (fr *frame) pos(p token.Pos) string {
 	if p == token.NoPos {
 		return fr.fn.String()
 	}
-	return fr.i.prog.Fset.Position(p).String()
+	out := fr.i.prog.Fset.Position(p).String()
+	if os.Getenv("GOSYM_STACK") != "" {
+		for f := fr; f != nil; f = f.caller {
+			if f.fn != nil {
+				out += " <- " + f.fn.String()
+			}
+		}
+	}
+	return out
 }
 
 // decideValue resolves a bool-or-Term condition to a concrete branch.
@@ -832,6 +840,13 @@ func runFrame(fr *frame) {
 		}
 		if tp, ok := r.(targetPanic); ok && tp.pos == "" {
 			tp.pos = fr.fn.String()
+			if os.Getenv("GOSYM_STACK") != "" {
+				for f := fr.caller; f != nil; f = f.caller {
+					if f.fn != nil {
+						tp.pos += " <- " + f.fn.String()
+					}
+				}
+			}
 			r = tp
 		}
 		fr.panicking = true
